@@ -24,6 +24,11 @@ def h(v):
     return v * 2 + 1
 
 
+def two(v, k=2):
+    """a call whose value has k columns"""
+    return np.column_stack([np.asarray(v, dtype=float) * (j + 1) for j in range(k)])
+
+
 # a callee reached through several attribute levels, with decoys of the same name on the way
 from types import SimpleNamespace as _NS      # noqa: E402
 ns = _NS(inner=_NS(deep=_NS(f=lambda v: v * 5 + 1, core=_NS(f=lambda v: v * 11)), f=lambda v: v * 3), deep=_NS(f=lambda v: v * 7, core=_NS(f=lambda v: v * 13)),
@@ -171,6 +176,28 @@ def _chunk(task):
         cases += [("rec", "rec(rec(a, 1), 0.5, k=rec(b, 2), s='x y')", "rec(rec(a, 1), 0.5, k=rec(b, 2), s='x y')", set()),
                   ("rec", "rec(rec(a, 1) + rec(b, 2), 0.5, k=rec(c, 3) * rec(a, 4), s='x y')",
                    "rec(rec(a, 1) + rec(b, 2), 0.5, k=rec(c, 3) * rec(a, 4), s='x y')", set())]
+    if seed % 1000 == 2:
+        # (i) a frame with its own row labels and an operand that lives in the calling scope with the same labels: the names resolve to
+        # the frame's columns as they are (labels included), so pandas aligns them as Python's eval does; (ii) a one-row frame with a
+        # call whose value has several columns
+        d2 = d.copy()
+        d2.index = [f"r{i}" for i in range(N)][::-1]
+        w = pd.Series(rng.uniform(1, 2, N), index=list(d2.index)[::-1])        # noqa: F841  (same labels, other order)
+        env2 = {"a": d2["a"], "b": d2["b"], "c": d2["c"], "w": w, "I": lambda v: v, "two": two, "np": np}
+        for frame_, txts in ((d2, ["I(a + w)", "I(a * w - b)", "I(w / a)"]), (d.iloc[[3]], ["two(a)", "two(a + b, 3)", "two(a, k=3)"]),
+                             (d2.iloc[[2]], ["two(a * 2)"])):
+            envx = dict(env2, a=frame_["a"], b=frame_["b"], c=frame_["c"])
+            for txt in txts:
+                f = f"y ~ 0 + {txt}"
+                try:
+                    want = np.asarray(eval(txt, {"__builtins__": {}}, dict(envx)), dtype=float)
+                    want = want.reshape(len(want), -1)
+                    X = np.asarray(design_matrices(f, frame_).common.design_matrix, dtype=float)
+                    X = X.reshape(X.shape[0], -1) if X.ndim else X.reshape(1, 1)
+                    ok_ = X.shape == want.shape and np.allclose(X, want, equal_nan=True)
+                    res.append((f, set(), "ok" if ok_ else f"value: column differs from Python's eval of the same text (shape {X.shape} vs {want.shape})"))
+                except Exception as ex:
+                    res.append((f, set(), f"value: raised {type(ex).__name__}: {ex}"))
     for form, messy, canon, cls in cases:
         pytext = messy[1:-1] if form == "brace" else messy
         try:
